@@ -62,6 +62,8 @@ func c19AmbientPrograms() []string {
 		`import "a" as a; 1`, `import "a" as a; a::f`, `include "m"; 1`, `include "m"; mf`, `import "d" as $d; $d`, `import "./a" as a; 1`, `import "a" as a {search: "./"}; 1`,
 		`include "a" {search: "/"}; 1`, `"a" | modulemeta`, `"m" | modulemeta`, `"./a" | modulemeta`, `getpath(["HOME"])`, `getpath(["C19_SECRET"])`,
 		`@sh "\(.)"`, `@json`, `@text`, `tojson`, `error`, `halt`, `halt_error`, `halt_error(1)`, `ltrimstr("a")`, `splits("a")`, `ascii`, `. as $x | $x`,
+		`strftime("%Y-%m-%dT%H:%M:%S %Z %z %s")?`, `todate?`, `gmtime? | mktime`, `gmtime? | todate`, `strftime("%c %Z")?`, `1710037800 | todate, strftime("%H %Z")`, `[2024,0,1,0,0,0,1,0] | strftime("%s %z"), mktime, todate`,
+		`"2015-03-05T23:51:47Z" | strptime("%Y-%m-%dT%H:%M:%SZ") | mktime`, `"2015-03-05T23:51:47Z" | fromdate`, `"10:20 +0900" | strptime("%H:%M %z")? | mktime`, `dateadd("seconds"; 10)?`, `date?`, `1e9 | dateadd("seconds"; 3600)? `,
 		`[limit(3; repeat(1))]`, `[range(5)]`, `tostring`, `@base64`, `now | type`, `"x" | test("x")`, `input_line_number`, `$ENV.HOME // "none"`, `env.HOME // "none"`)
 	return ps
 }
@@ -79,8 +81,8 @@ func c19TimeDependent(p string) bool {
 		n = n[:i]
 	}
 	switch n {
-	case "now", "localtime", "strflocaltime", "strptime", "mktime", "date", "todate", "strftime", "gmtime":
-		return true
+	case "now", "localtime", "strflocaltime":
+		return true // the functions that are defined in terms of the clock or the local time zone; strftime, todate, gmtime, mktime, strptime work in UTC
 	}
 	return false
 }
